@@ -8,10 +8,13 @@ Open Scope bool_scope.
 Inductive op : Type :=
 | VNew | VFrom (l : list nat) | VClone (k : nat) | VDrop (k : nat)
 | VPush (k x : nat) | VPop (k : nat) | VSet (k i x : nat) | VGet (k i : nat)
-| VTrunc (k n : nat) | VExtend (k : nat) (l : list nat) | VIterFrom (k i : nat)
+| VTrunc (k n : nat) | VExtend (k : nat) (l : list nat) | VIterFrom (k i : nat) | VMapFrom (k i d : nat)
 | SNew | SFrom (l : list nat) | SClone (k : nat) | SDrop (k : nat)
 | SPush (k x : nat) | SPop (k : nat) | SSet (k i x : nat) | SGet (k i : nat)
-| SSlice (k a b : nat) | SExtend (k : nat) (l : list nat) | SExtendFrom (k j : nat) | SIter (k : nat).
+| SSlice (k a b : nat) | SExtend (k : nat) (l : list nat) | SExtendFrom (k j : nat) | SIter (k : nat) | SMap (k d : nat).
+
+(* what the histories do to the elements they visit through [iter_mut] *)
+Definition bump (d x : nat) : nat := (x + d) mod 10.
 
 (* what an operation returns to its caller *)
 Inductive res : Type :=
@@ -65,6 +68,8 @@ Definition istep (st : istate) (o : op) : istate * res :=
                                          | Some v' => (setv st k v', ROk) | None => (st, RPanic) end)
   | VIterFrom k i => with_v st k (fun v => (st, match viter_from B v i with
                                                 | Some l => RIter l | None => RPanic end))
+  | VMapFrom k i d => with_v st k (fun v => match vmap_from B v i (bump d) (vlen v) with
+                                            | Some v' => (setv st k v', ROk) | None => (st, RPanic) end)
   | SNew => (mkI (ivs st) (iss st ++ [Some snew]), ROk)
   | SFrom l => match sfrom_list B l with
                | Some s => (mkI (ivs st) (iss st ++ [Some s]), ROk)
@@ -94,6 +99,8 @@ Definition istep (st : istate) (o : op) : istate * res :=
                                 end
                             | None => (st, RDead) end)
   | SIter k => with_s st k (fun s => (st, match siter B s with Some l => RIter l | None => RPanic end))
+  | SMap k d => with_s st k (fun s => match smap B s (bump d) with
+                                      | Some s' => (sets st k s', ROk) | None => (st, RPanic) end)
   end.
 
 (* the whole trace: result of every operation and the state after it *)
@@ -136,6 +143,9 @@ Definition sstep (st : sstate) (o : op) : sstate * res :=
   | VTrunc k n => swith (svs st) k st (fun l => (ssetv st k (firstn n l), ROk))
   | VExtend k l2 => swith (svs st) k st (fun l => (ssetv st k (l ++ l2), ROk))
   | VIterFrom k i => swith (svs st) k st (fun l => (st, if i <=? length l then RIter (skipn i l) else RPanic))
+  | VMapFrom k i d => swith (svs st) k st (fun l => if i <=? length l
+                                                     then (ssetv st k (firstn i l ++ map (bump d) (skipn i l)), ROk)
+                                                     else (st, RPanic))
   | SNew => (mkS (svs st) (sss st ++ [Some []]), ROk)
   | SFrom l => (mkS (svs st) (sss st ++ [Some l]), ROk)
   | SClone k => swith (sss st) k st (fun l => (mkS (svs st) (sss st ++ [Some l]), ROk))
@@ -155,6 +165,7 @@ Definition sstep (st : sstate) (o : op) : sstate * res :=
                                                      | Some l2 => (ssets st k (l ++ l2), ROk)
                                                      | None => (st, RDead) end)
   | SIter k => swith (sss st) k st (fun l => (st, RIter l))
+  | SMap k d => swith (sss st) k st (fun l => (ssets st k (map (bump d) l), ROk))
   end.
 
 Fixpoint srun (st : sstate) (ops : list op) : list (res * sstate) :=
